@@ -261,7 +261,7 @@ impl Prop for C01 {
             rule: "exhaustive product: message shapes (all 32 UEH/MSBF/WEID/WSID/WTMS combinations x payload sizes {0,1,2,3,4,5,9,max} x 3 id sets x mcnt {0,255}) x garbage runs (12 lengths x 8 contents incl. marker prefixes and a header look-alike) before/between/after x both framings x start index {0,1000}; singles, all ordered pairs of the 32 shapes, triples over a 6-shape core. Streams are built by an independent byte builder; candidates containing a marker anywhere but at a message start are rejected and counted (premise). Oracle: field-by-field equality, consecutive indices, skipped+tail = garbage, tail <= min(trailing garbage, minimal message - 1), processed <= input. Non-trivial = at least one byte was skipped.".into(),
             assumptions: vec!["payload/garbage bytes come from the stated pattern sets, not all byte values".into(),
                 "serial-framed messages have no reception time in the stream; the synthesised one is not compared".into()],
-            budget_s: (40, 1200),
+            budget_s: (90, 1200),
             workers: 0,
             required_landmarks: vec!["has_garbage", "garbage_ge_20", "serial", "storage", "leading_garbage(undetected phase)", "max_size_msg", "via_lowmark_reader", "reader_production"],
         }
